@@ -48,7 +48,8 @@ Inductive cb_obs :=
 (* the /callback round trip of a case: err_param, later-gate verdict (by construction), observation *)
 Definition cb_part : Type := bool * option N * cb_obs.
 
-(* [tag] = 1000 * (1 if response headers / framing of an answer were varied) + 10 * (index of the provider configuration in the driver's pool; 0-2 are the three default
+(* [tag] = 1000 * (1 if response headers / framing of an answer were varied) + 500 * (1 if the logins of
+   the group ran one after the other on the same provider object rather than at once) + 10 * (index of the provider configuration in the driver's pool; 0-2 are the three default
    configurations) + (number of logins in flight at once, this one included).  The model has no
    such parameters: the unchanged Redeem consults neither the configuration nor anything shared
    between logins, so every login of a group is judged against ITS OWN answers (the token answer
@@ -200,6 +201,7 @@ Definition judge_lc (lc : bool) (c : case) : N :=
 Definition judge (c : case) : N := judge_lc today_len_check c.
 
 (* classes for the evidence histogram:
+   8000 if the login is part of a sequence on one provider object +
    4000 if response headers / framing were varied + 2000 if the provider configuration is not a default one +
    1000 if other logins were in flight +
    provider*100 + outcome (0 error-before-token-decode, 1 error after a good token answer,
@@ -207,8 +209,9 @@ Definition judge (c : case) : N := judge_lc today_len_check c.
 Definition classify (c : case) : N :=
   match c with
   | Case tag prov code tok ui tab o tokc uic cb =>
+      (if 1 <=? (tag mod 1000) / 500 then 8000 else 0) +
       (if 1 <=? tag / 1000 then 4000 else 0) +
-      (if 3 <=? (tag mod 1000) / 10 then 2000 else 0) + (if 2 <=? tag mod 10 then 1000 else 0) +
+      (if 3 <=? (tag mod 500) / 10 then 2000 else 0) + (if 2 <=? tag mod 10 then 1000 else 0) +
       (match prov with Google => 100 | Okta => 200 | Cognito => 300 end) +
       (match o with
        | OSession _ _ _ => 20
